@@ -779,6 +779,18 @@ def m_cell(ip, st, fr, t, args):
     return None
 
 
+def m_controlflow_test(ip, st, fr, t, args):
+    """ControlFlow::is_break / is_continue (Continue = variant 0, Break = variant 1)"""
+    v = args[0]
+    if isinstance(v, Ref):
+        v = ip.read_loc(st, v.root, v.path)
+    if not isinstance(v, Enum):
+        return None
+    name = (t["callee"]["path"] or "").split("::")[-1]
+    isb = 1 if v.variant == 1 else 0
+    return Int((isb if name == "is_break" else 1 - isb,))
+
+
 def m_default_scalar(ip, st, fr, t, args):
     """<integer / bool as Default>::default() = 0 / false"""
     ii = ip.int_info(t["dest"]["ty"])
@@ -851,6 +863,7 @@ def standard_models():
         # `&x[..]` / `&mut x[..]`: the whole array / slice / vector as a slice - the same place
         (lambda p, f: "RangeFull" in ((f or "") + (p or "")) and ((p or "").endswith("::index") or (p or "").endswith("::index_mut")), m_identity0),
         (lambda p, f: (p or "").startswith("std::cell::Cell::<T>::") or (p or "").startswith("core::cell::Cell::<T>::") or (p or "").startswith("std::cell::Cell::<"), m_cell),
+        (lambda p, f: "ops::ControlFlow" in (p or "") and (p or "").split("::")[-1] in ("is_break", "is_continue"), m_controlflow_test),
         (lambda p, f: (p or "").startswith("anyhow::__private::"), m_anyhow),
         (lambda p, f: (p or "").startswith("anyhow::context::<impl anyhow::Context<") and ((p or "").endswith("::with_context") or (p or "").endswith("::context")), m_identity0),
     ]
